@@ -116,9 +116,9 @@ fn stake_families(n: usize) -> Vec<(&'static str, Vec<u64>)> {
 pub fn run(tier: Tier) -> i32 {
     let report = Report::new("C16", tier, "exploration");
     let lsk = leader_key();
-    let slots: Vec<u64> = tier.pick(vec![0, 1, 4, 5, 8], (0..=8).collect());
+    let slots: Vec<u64> = tier.pick(vec![0, 1, 4, 5, 8], (0..=16).chain([1 << 32, (1 << 32) + 5, u64::MAX - 9, u64::MAX - 4]).collect());
     // low indices plus the region around 2^9 and the maximum (cache keys / seeds must not alias)
-    let slices: Vec<usize> = vec![0, 1, 2, 511, 512, 513, 1023];
+    let slices: Vec<usize> = tier.pick(vec![0, 1, 2, 511, 512, 513, 1023], vec![0, 1, 2, 3, 63, 64, 65, 255, 256, 257, 511, 512, 513, 1022, 1023]);
     // shreds for every (slot, slice)
     let mut shreds: BTreeMap<(u64, usize), Vec<Shred>> = BTreeMap::new();
     let mut sh = RegularShredder::default();
@@ -132,13 +132,13 @@ pub fn run(tier: Tier) -> i32 {
         }
     }
     let mut configs: Vec<(usize, &'static str, Vec<u64>, Proto)> = Vec::new();
-    let ns: Vec<usize> = tier.pick(vec![1, 2, 3, 4, 5, 7, 12], (1..=12).collect());
-    for n in ns.iter().copied().chain([50, 100]) {
+    let ns: Vec<usize> = tier.pick(vec![1, 2, 3, 4, 5, 7, 12], (1..=20).chain([33]).collect());
+    for n in ns.iter().copied().chain(tier.pick(vec![50usize, 100], vec![50, 64, 65, 100, 200])) {
         let fams = if n >= 50 { vec![("equal", vec![10u64; n])] } else { stake_families(n) };
         for (fname, stakes) in fams {
             configs.push((n, fname, stakes.clone(), Proto::Rotor));
             configs.push((n, fname, stakes.clone(), Proto::RotorFa1));
-            for f in [1usize, 2, 3, 200] {
+            for f in tier.pick(vec![1usize, 2, 3, 200], vec![1, 2, 3, 4, 8, 200]) {
                 if n >= 50 && f == 1 {
                     continue;
                 }
